@@ -33,7 +33,8 @@ done
 for d in "$V"/seeded/*/; do
   [ -f "$d/patch.diff" ] || continue
   n=$(basename "$d"); [[ -n "$PAT" && "$n" != *$PAT* ]] && continue
-  props=$(python3 -c "import json,sys;m=json.load(open('$d/meta.json'));print(' '.join(m.get('caught_by') or [m['property']]))")
+  props=$(python3 -c "import json,sys;m=json.load(open('$d/meta.json'));print(' '.join(m['caught_by'] if 'caught_by' in m else [m['property']]))")
+  [ -z "$props" ] && { echo "SKIP    seeded/$n: $(python3 -c "import json;print(json.load(open('$d/meta.json')).get('status',''))")"; continue; }
   for prop in $props; do run_one "$prop" "$d/patch.diff" "seeded/$n"; done
 done
 echo "sensitivity: caught=$pass missed=$fail"
